@@ -269,6 +269,19 @@ Definition local_ref (basedir line : str) : item :=
 Definition local_table (basedir : str) (ls : list str) : list (str * item) :=
   map (fun raw => (strip raw, local_ref basedir (strip raw))) ls.
 
+(* ------------------------------------------------------------------ text codecs with errors="replace"
+   (.m3u files use the configured default_encoding; latin-1 and ascii are modelled, utf-8 and
+   the other code pages remain oracles) *)
+Inductive codec := Latin1 | Ascii.
+Definition representable (c : codec) (x : Z) : bool :=
+  match c with Latin1 => (0 <=? x) && (x <? 256) | Ascii => (0 <=? x) && (x <? 128) end.
+(* str.encode(enc, "replace"): one "?" per character that has no byte *)
+Definition encode_repl (c : codec) (s : str) : list Z :=
+  map (fun x => if representable c x then x else 63) s.
+(* bytes.decode(enc, "replace"): U+FFFD per undecodable byte *)
+Definition decode_repl (c : codec) (bs : list Z) : str :=
+  map (fun b => match c with Latin1 => b | Ascii => if b <? 128 then b else 65533 end) bs.
+
 (* ------------------------------------------------------------------ provider over a flat directory *)
 
 Definition pdir := list (str * str).          (* file name -> text; keys unique *)
